@@ -110,3 +110,42 @@ func H_C03_unencrypted(maxlen int) {
 		verifrt.Assert(verifrt.SameBytes(m.Msg, body), "unenc-open-body")
 	}
 }
+
+// H_C03_overlap: two connections of one process (main DC + a file-transfer DC) seal messages at overlapping
+// times: while connection A's Serialize is between any two of its steps (observed at the moment it asks A for
+// its session id / seq_no / salt / key), connection B seals a whole message of its own.  A's packet is still
+// exactly the envelope of A's fields and body under A's key (nothing of B's leaks in), and so is B's.
+func H_C03_overlap(n, when int) {
+	keyA, keyB := verifrt.Bytes(256), verifrt.Bytes(256)
+	a := &stubInformator{session: verifrt.I64(), seqNo: verifrt.I32(), salt: verifrt.I64(), key: keyA}
+	b := &stubInformator{session: verifrt.I64(), seqNo: verifrt.I32(), salt: verifrt.I64(), key: keyB}
+	idA, idB := verifrt.I64(), verifrt.I64()
+	bodyA, bodyB := verifrt.Bytes(n), verifrt.Bytes(n+4)
+	var outA, outB []byte
+	var errA, errB error
+	done := false
+	a.during = func(which int) {
+		if which != when || done {
+			return
+		}
+		done = true
+		outB, errB = (&Encrypted{Msg: bodyB, MsgID: idB}).Serialize(b, false)
+	}
+	pn := verifrt.Catch(func() { outA, errA = (&Encrypted{Msg: bodyA, MsgID: idA}).Serialize(a, true) })
+	verifrt.Assert(!pn && errA == nil && errB == nil, "overlap-serialize-ok")
+	if pn || errA != nil || errB != nil {
+		return
+	}
+	verifrt.Assert(done, "overlap-happened")
+	check := func(tag string, out, key []byte, inf *stubInformator, id int64, seq uint32, body []byte) {
+		plain := refPlain(uint64(inf.salt), uint64(inf.session), uint64(id), seq, uint32(len(body)), body)
+		want := refSeal(key, plain, make([]byte, (16-len(plain)%16)%16), 0)
+		verifrt.Assert(len(out) == len(want), tag+"-length")
+		if len(out) == len(want) {
+			verifrt.Assert(verifrt.SameBytes(out[0:24], want[0:24]), tag+"-key-id-and-msg-key")
+			verifrt.Assert(verifrt.SameBytes(out[24:], want[24:]), tag+"-ciphertext")
+		}
+	}
+	check("overlap-A", outA, keyA, a, idA, uint32(a.seqNo)|1, bodyA)
+	check("overlap-B", outB, keyB, b, idB, uint32(b.seqNo), bodyB)
+}
